@@ -85,9 +85,10 @@ def run(chk):
             return float(10.0 ** rng.uniform(-300, -16))
         return float(10.0 ** rng.uniform(-16, math.log10(500)))
     # ---------------------------------------------------------------- scalar calls
-    n_sc = 110 if chk.tier == "quick" else 6000
-    n_itv = 28 if chk.tier == "quick" else 500
+    n_sc = 110 if chk.tier == "quick" else 3000
+    n_itv = 28 if chk.tier == "quick" else 250
     ec, ep, ed = [], [], []
+    fc, fd = [], []
     tc, tp, td = [], [], []
     for t in range(n_sc):
         lam = rate()
@@ -110,6 +111,12 @@ def run(chk):
                 ec.append(f"({zlit(f.numerator)}, {zlit(f.denominator)}, {K}%nat, {zlit(fv.numerator)}, {zlit(fv.denominator)}, 1, 1000000000)%Z")
                 ep.append(fail)
                 ed.append({"call": "poisson_entropy(scalar)", "rate": sign * lam, "terms_summed": K + 1, "returned": v, "reference": ref})
+                # complete certificate: K' with 2 lam <= K'+1 and p_K' <= 1e-18 (chosen here, CHECKED inside Coq)
+                Kf = max(K, int(math.ceil(2 * lam)) - 1, 1)
+                while -lam + Kf * math.log(lam) - math.lgamma(Kf + 1) > math.log(5e-19):
+                    Kf += 1
+                fc.append(f"({zlit(f.numerator)}, {zlit(f.denominator)}, {Kf}%nat, {zlit(fv.numerator)}, {zlit(fv.denominator)})%Z")
+                fd.append({"call": "poisson_entropy(scalar)", "rate": sign * lam, "terms_in_certificate": Kf + 1, "returned": v, "reference": ref})
         elif fail:
             chk.violation("counterexample", fail, {"call": "poisson_entropy(scalar)", "rate": sign * lam, "returned": v, "reference": ref})
         # termination logic on the recorded pmf table
@@ -123,7 +130,7 @@ def run(chk):
         chk.count("scalar.calls")
         chk.count("scalar.tiny" if 0 < lam < 1e-16 else "scalar.zero" if lam == 0 else "scalar.regular")
     # ---------------------------------------------------------------- vector / matrix calls of mixed magnitude
-    n_vec = 90 if chk.tier == "quick" else 6000
+    n_vec = 90 if chk.tier == "quick" else 3000
     for t in range(n_vec):
         m = int(rng.integers(2, 9))
         lams = np.array([rate() * (-1 if rng.random() < 0.15 else 1) for _ in range(m)])
@@ -164,8 +171,8 @@ def run(chk):
         chk.count("vector.mixed_magnitude" if la.max() > 1e3 * max(la.min(), 1e-300) else "vector.similar")
     lib.correspond(chk, "termination_vs_model", IMPORTS, "list Q * list (list bool) * list (list (Z * Z)) * nat", "check_terms_case",
                    tc, tp, lambda i: td[i], shard=20, jobs=10)
-    lib.correspond(chk, "entropy_value_in_verified_enclosure", IMPORTS, "Z * Z * nat * Z * Z * Z * Z", "check_entropy_case",
-                   ec, ep, lambda i: ed[i], shard=2, jobs=15, timeout=1500)
+    lib.correspond(chk, "entropy_of_the_whole_series_certified", IMPORTS, "Z * Z * nat * Z * Z", "check_entropy_full_case",
+                   fc, [None] * len(fc), lambda i: fd[i], shard=2, jobs=15, timeout=1500)
     # ---------------------------------------------------------------- joint entropy
     jc, jp, jd = [], [], []
     for t in range(100 if chk.tier == "quick" else 4000):
